@@ -3,12 +3,13 @@ import Girc.Model.Sts
 import Girc.Model.Log
 import Girc.Spec.EventSpec
 import Girc.Proofs.Roundtrip
+import Girc.Proofs.ProtocolBAux
 /-
   Proof obligations over the handler model for C08 (capabilities), C09 (SASL protocol), C10 (STS),
   C14 (reply discipline) and C17 (PING / nick collisions).
 -/
 namespace Girc.Proofs.ProtocolB
-open Girc Girc.Model Girc.Spec
+open Girc Girc.Model Girc.Spec Girc.Proofs.ProtocolBAux
 
 /-! ## C08 capability negotiation -/
 
@@ -20,7 +21,7 @@ theorem possible_exact (cfg : Cfg) (k : Bytes) :
     AMap.contains (possibleCaps cfg) k = true ↔
       (k ∈ builtinCaps ∨ k ∈ AMap.keys cfg.supportedCaps ∨ (k = sSasl ∧ cfg.sasl.isSome) ∨
        (k = sSts ∧ cfg.disableSTS = false ∧ cfg.ssl = false ∧ ¬(cfg.stsRecentlyFailed = true ∧ cfg.disableSTSFallback = false))) := by
-  sorry
+  rw [contains_iff_mem_keys]; exact mem_keys_possibleCaps cfg k
 
 /-- The capabilities an LS/NEW line (≥ 3 parameters) advertises. -/
 def advertisedBy (e : Event) : List Bytes :=
@@ -30,31 +31,125 @@ def advertisedBy (e : Event) : List Bytes :=
 def CapInv (cfg : Cfg) (adv : List Bytes) (st : St) : Prop :=
   ∀ k ∈ AMap.keys st.tmpCap, k ∈ adv ∧ AMap.contains (possibleCaps cfg) k = true
 
+theorem ackRes_tmpCap (cfg : Cfg) (st : St) (last : Bytes) :
+    (ackRes cfg st last).1.tmpCap = st.tmpCap ∨ (ackRes cfg st last).1.tmpCap = [] := by
+  rcases ackRes_cases cfg st last with ⟨s, _, h⟩ | ⟨v, _, _, _, h⟩ | ⟨v, _, _, _, h⟩
+  · right; rw [h, ackTail_fst]
+  · left; rw [h]
+  · left; rw [h]
+
 theorem capinv_step (cfg : Cfg) (adv : List Bytes) (st : St) (e : Event) (h : CapInv cfg adv st) :
     CapInv cfg (adv ++ advertisedBy e) (handleCAP cfg st e).1 := by
-  sorry
+  have hold : ∀ k ∈ AMap.keys st.tmpCap, k ∈ adv ++ advertisedBy e ∧ AMap.contains (possibleCaps cfg) k = true :=
+    fun k hk => ⟨List.mem_append_left _ (h k hk).1, (h k hk).2⟩
+  rw [handleCAP_eq]
+  cases hd : isDel e
+  · cases hn : isNak e
+    · cases hl : isLs e
+      · cases ha : isAck e
+        · simpa [CapInv] using hold
+        · simp only [Bool.false_eq_true, ↓reduceIte]
+          intro k hk
+          rcases ackRes_tmpCap cfg st e.last with h1 | h1
+          · rw [h1] at hk; exact hold k hk
+          · rw [h1] at hk; simp [AMap.keys] at hk
+      · simp only [Bool.false_eq_true, ↓reduceIte]
+        intro k hk
+        have hadv : advertisedBy e = AMap.keys (parseCap e.last) := by
+          unfold advertisedBy; unfold isLs at hl; rw [if_pos hl]
+        rcases mem_keys_capCollect _ _ _ _ hk with h1 | ⟨h1, h2⟩
+        · exact hold k h1
+        · exact ⟨List.mem_append_right _ (hadv ▸ h1), h2⟩
+    · simpa [CapInv] using hold
+  · simpa [CapInv] using hold
+
+theorem ackRes_out (cfg : Cfg) (st : St) (last : Bytes) :
+    (ackRes cfg st last).2 = [Out.write capEnd] ∨
+    (∃ m, cfg.sasl = some m ∧ (ackRes cfg st last).2 = [Out.write { command := cAUTHENTICATE, params := [m.method] }]) ∨
+    (ackRes cfg st last).2 = [Out.inject { command := cERROR, params := [sStsInvalid] }] ∨
+    (ackRes cfg st last).2 = [Out.close] := by
+  rcases ackRes_cases cfg st last with ⟨s, _, h⟩ | ⟨v, _, _, _, h⟩ | ⟨v, _, _, _, h⟩
+  · rw [h]
+    rcases ackTail_snd cfg { st with enabledCap := capAck st.tmpCap st.enabledCap (splitOnByte SP last), sts := s } with h1 | ⟨m, h1, h2⟩
+    · left; exact h1
+    · right; left; exact ⟨m, h1, h2⟩
+  · right; right; left; rw [h]
+  · right; right; right; rw [h]
 
 /-- Every CAP REQ the client writes lists exactly the pending capabilities (after this event). -/
 theorem req_is_pending (cfg : Cfg) (st : St) (e : Event) (x : Bytes) :
     Out.write { command := cCAP, params := [cREQ, x] } ∈ (handleCAP cfg st e).2 →
       x = joinWith [SP] (sortBytes (AMap.keys (handleCAP cfg st e).1.tmpCap)) ∧ (handleCAP cfg st e).1.tmpCap ≠ [] := by
-  sorry
+  rw [handleCAP_eq]
+  cases hd : isDel e
+  · cases hn : isNak e
+    · cases hl : isLs e
+      · cases ha : isAck e
+        · simp
+        · simp only [Bool.false_eq_true, ↓reduceIte]
+          intro hm
+          exfalso
+          rcases ackRes_out cfg st e.last with h | ⟨m, _, h⟩ | h | h <;> rw [h] at hm <;>
+            simp [capEnd] at hm
+      · simp only [Bool.false_eq_true, ↓reduceIte]
+        by_cases h3 : e.params.length = 3
+        · by_cases he : (capCollect (possibleCaps cfg) st.tmpCap (parseCap e.last)).isEmpty = true
+          · simp [h3, he, capEnd]
+          · simp only [h3, he, Bool.false_eq_true, ↓reduceIte]
+            intro hm
+            simp at hm
+            refine ⟨hm, ?_⟩
+            intro hnil
+            apply he
+            simp [hnil]
+        · simp [h3]
+    · simp [capEnd]
+  · simp
 
 /-- A continuation line (`CAP * LS * :caps`, 4 parameters) produces no output. -/
 theorem ls_continuation_silent (cfg : Cfg) (st : St) (e : Event) (a b c d : Bytes)
     (hp : e.params = [a, b, c, d]) (hls : b = cLS ∨ b = cNEW) : (handleCAP cfg st e).2 = [] := by
-  sorry
+  obtain ⟨h1, h2, h3, h4⟩ := flags_of_params e a b [c, d] hp
+  rw [handleCAP_eq, h1, h2, h3]
+  rcases hls with h | h <;> subst h <;> simp +decide [hp]
 
 /-- The final LS line concludes the round with exactly one REQ or exactly one END. -/
 theorem ls_final_concludes (cfg : Cfg) (st : St) (e : Event) (a b c : Bytes)
     (hp : e.params = [a, b, c]) (hls : b = cLS ∨ b = cNEW) :
     (handleCAP cfg st e).2 = [Out.write capEnd] ∨
     ∃ x, (handleCAP cfg st e).2 = [Out.write { command := cCAP, params := [cREQ, x] }] := by
-  sorry
+  obtain ⟨h1, h2, h3, h4⟩ := flags_of_params e a b [c] hp
+  have hlen : e.params.length = 3 := by rw [hp]; rfl
+  have hd : isDel e = false := by rw [h1]; rcases hls with h | h <;> subst h <;> simp +decide
+  have hn : isNak e = false := by rw [h2]; rcases hls with h | h <;> subst h <;> simp +decide
+  have hl : isLs e = true := by rw [h3]; rcases hls with h | h <;> subst h <;> simp +decide
+  rw [handleCAP_eq, hd, hn, hl]
+  simp only [Bool.false_eq_true, ↓reduceIte, hlen]
+  by_cases he : (capCollect (possibleCaps cfg) st.tmpCap (parseCap e.last)).isEmpty = true
+  · left; simp only [he, ↓reduceIte]
+  · right; simp only [he, Bool.false_eq_true, ↓reduceIte]; exact ⟨_, rfl⟩
 
 theorem nak_concludes (cfg : Cfg) (st : St) (e : Event) (a b : Bytes) (rest : List Bytes)
     (hp : e.params = a :: b :: rest) (hn : b = cNAK) : (handleCAP cfg st e).2 = [Out.write capEnd] := by
-  sorry
+  obtain ⟨h1, h2, h3, h4⟩ := flags_of_params e a b rest hp
+  subst hn
+  have hd : isDel e = false := by rw [h1]; decide
+  have hn : isNak e = true := by rw [h2]; decide
+  rw [handleCAP_eq, hd, hn]
+  simp
+
+theorem ack_flags (e : Event) (a b c : Bytes) (hp : e.params = [a, b, c]) (hack : b = cACK) :
+    isDel e = false ∧ isNak e = false ∧ isLs e = false ∧ isAck e = true ∧ e.last = c := by
+  obtain ⟨h1, h2, h3, h4⟩ := flags_of_params e a b [c] hp
+  subst hack
+  refine ⟨by rw [h1]; decide, by rw [h2]; decide, by rw [h3]; simp +decide, by rw [h4]; simp, ?_⟩
+  simp [Event.last, hp]
+
+theorem handleCAP_ack3 (cfg : Cfg) (st : St) (e : Event) (a b c : Bytes) (hp : e.params = [a, b, c]) (hack : b = cACK) :
+    handleCAP cfg st e = ackRes cfg st c := by
+  obtain ⟨h1, h2, h3, h4, h5⟩ := ack_flags e a b c hp hack
+  rw [handleCAP_eq, h1, h2, h3, h4, h5]
+  simp
 
 /-- An ACK yields exactly one of: CAP END, the start of authentication, an STS abort, an STS upgrade. -/
 theorem ack_concludes (cfg : Cfg) (st : St) (e : Event) (a b c : Bytes)
@@ -63,11 +158,19 @@ theorem ack_concludes (cfg : Cfg) (st : St) (e : Event) (a b c : Bytes)
     (∃ m, cfg.sasl = some m ∧ (handleCAP cfg st e).2 = [Out.write { command := cAUTHENTICATE, params := [m.method] }]) ∨
     (handleCAP cfg st e).2 = [Out.inject { command := cERROR, params := [sStsInvalid] }] ∨
     (handleCAP cfg st e).2 = [Out.close] := by
-  sorry
+  rw [handleCAP_ack3 cfg st e a b c hp hack]
+  exact ackRes_out cfg st c
 
 /-- `HasCapability` -/
 def hasCapability (connected : Bool) (st : St) (name : Bytes) : Bool :=
   connected && (AMap.keys st.enabledCap).any (fun k => toLowerAscii k = toLowerAscii name)
+
+theorem ackRes_enabledCap (cfg : Cfg) (st : St) (last : Bytes) :
+    (ackRes cfg st last).1.enabledCap = capAck st.tmpCap st.enabledCap (splitOnByte SP last) := by
+  rcases ackRes_cases cfg st last with ⟨s, _, h⟩ | ⟨v, _, _, _, h⟩ | ⟨v, _, _, _, h⟩
+  · rw [h, ackTail_fst]
+  · rw [h]
+  · rw [h]
 
 /-- The enabled set changes only by ACK (adds) and DEL (removes). -/
 theorem enabled_transitions (cfg : Cfg) (st : St) (e : Event) :
@@ -77,24 +180,119 @@ theorem enabled_transitions (cfg : Cfg) (st : St) (e : Event) :
        else if e.params.length = 3 && e.params[1]? = some cACK then
          capAck st.tmpCap st.enabledCap (splitOnByte SP e.last)
        else st.enabledCap) := by
-  sorry
+  have e1 : (decide (e.params.length ≥ 2) && decide (e.params[1]? = some cDEL)) = isDel e := rfl
+  have e2 : (decide (e.params.length = 3) && decide (e.params[1]? = some cACK)) = isAck e := rfl
+  rw [e1, e2, handleCAP_eq]
+  cases hd : isDel e
+  · cases hn : isNak e
+    · cases hl : isLs e
+      · cases ha : isAck e
+        · simp
+        · simp [ackRes_enabledCap]
+      · simp [ls_not_ack e hl]
+    · have : isAck e = false := by
+        unfold isNak at hn; unfold isAck
+        simp only [Bool.and_eq_true, decide_eq_true_eq] at hn
+        simp [hn.2]; intro _; decide
+      simp [this]
+  · simp
 
 /-- Tags reach the wire only while message-tags is enabled: without it the wire form of an event
     is byte for byte that of the same event without tags. -/
 theorem tags_only_with_message_tags (st : St) (e : Event) (h : AMap.contains st.enabledCap sMessageTags = false) :
     wireEvent st e = eventBytes { e with tags := none } := by
-  sorry
+  unfold wireEvent
+  cases ht : e.tags with
+  | none =>
+    simp only [Option.isSome_none, Bool.false_and, Bool.false_eq_true, ↓reduceIte]
+    rw [← ht]
+  | some t =>
+    simp only [Option.isSome_some, h, Bool.not_false, Bool.and_self, ↓reduceIte]
+    unfold eventBytes rawBytes tagsWrite tagsBytes
+    simp
 
 /-- … and with it enabled the event is written as it is. -/
 theorem tags_kept_with_message_tags (st : St) (e : Event) (h : AMap.contains st.enabledCap sMessageTags = true) :
     wireEvent st e = eventBytes e := by
-  sorry
+  unfold wireEvent
+  simp [h]
+
+/-- An output that is neither a CAP nor an AUTHENTICATE line. -/
+def OkOut (o : Out) : Prop :=
+  ∀ ev, (o = Out.write ev ∨ o = Out.send ev) → ev.command ≠ cCAP ∧ ev.command ≠ cAUTHENTICATE
+
+theorem okOut_ctcpReply (t ty m : Bytes) : OkOut (ctcpReply t ty m) := by
+  intro ev h
+  unfold ctcpReply at h
+  rcases h with h | h
+  · cases h
+  · injection h with h; subst h; constructor <;> (dsimp only; decide)
+
+theorem okOut_ctcpCall (cfg : Cfg) (ev : CTCPEvent) (time idle : Bytes) :
+    ∀ o ∈ ctcpCall cfg ev time idle, OkOut o := by
+  intro o ho
+  unfold ctcpCall at ho
+  simp only [] at ho
+  repeat' split at ho
+  all_goals first
+    | (simp only [List.mem_singleton] at ho; subst ho; exact okOut_ctcpReply _ _ _)
+    | (simp at ho)
+
+theorem okOut_nickCollision (cfg : Cfg) (st : St) (e : Event) :
+    ∀ o ∈ nickCollision cfg st e, OkOut o := by
+  intro o ho
+  unfold nickCollision at ho
+  simp only [] at ho
+  have key : ∀ n : Bytes, OkOut (Out.send { command := cNICK, params := [n] }) := by
+    intro n ev h
+    rcases h with h | h
+    · cases h
+    · injection h with h; subst h; constructor <;> (dsimp only; decide)
+  repeat' split at ho
+  all_goals first
+    | (simp only [List.mem_singleton] at ho; subst ho; exact key _)
+    | (simp at ho)
+
+theorem okOut_handleCommand (cfg : Cfg) (cs : CState) (e : Event) (cs' : CState) (outs : List Out)
+    (hd : cfg.disableTracking = true) (h : handleCommand cfg cs e = .ok (cs', outs)) :
+    ∀ o ∈ outs, OkOut o := by
+  unfold handleCommand at h
+  simp only [hd, ↓reduceIte] at h
+  split at h
+  · injection h with h; injection h with _ h; subst h
+    intro o ho
+    simp only [List.mem_singleton] at ho; subst ho
+    intro ev h
+    rcases h with h | h
+    · injection h with h; subst h; constructor <;> (dsimp only; decide)
+    · cases h
+  · split at h
+    · injection h with h; injection h with _ h; subst h; simp
+    · split at h
+      · injection h with h; injection h with _ h; subst h
+        exact okOut_nickCollision cfg cs.st e
+      · injection h with h; injection h with _ h; subst h; simp
 
 /-- With tracking disabled no CAP line is ever written. -/
 theorem tracking_disabled_no_cap (cfg : Cfg) (cs : CState) (e : Event) (time idle : Bytes) (cs' : CState) (outs : List Out)
     (hd : cfg.disableTracking = true) (h : handleEvent cfg cs e time idle = .ok (cs', outs)) :
     ∀ o ∈ outs, ∀ ev, (o = Out.write ev ∨ o = Out.send ev) → ev.command ≠ cCAP ∧ ev.command ≠ cAUTHENTICATE := by
-  sorry
+  have hecho : isEcho cfg cs.st e = false := by unfold isEcho; simp [hd]
+  unfold handleEvent at h
+  simp only [hecho, hd, Bool.false_eq_true, ↓reduceIte] at h
+  cases hc : handleCommand cfg cs e with
+  | error f => rw [hc] at h; cases h
+  | ok r =>
+    obtain ⟨cs1, o1⟩ := r
+    rw [hc] at h
+    have h1 := okOut_handleCommand cfg cs e cs1 o1 hd hc
+    injection h with h; injection h with _ h; subst h
+    intro o ho
+    rcases List.mem_append.mp ho with ho | ho
+    · exact h1 o ho
+    · split at ho
+      · exact okOut_ctcpCall _ _ _ _ o ho
+      · simp at ho
 
 /-! ## C10 strict transport security -/
 
@@ -105,25 +303,75 @@ def usablePort (v : CapVal) : Option Int :=
     | none => none
   | none => none
 
+theorem stsOnAck_plain_some (cfg : Cfg) (sts : Sts) (v : CapVal) (p : Int)
+    (htls : cfg.tlsActive = false) (hp : usablePort v = some p) :
+    stsOnAck cfg sts v = ({ sts with upgradePort := p, beginUpgrade := true }, .upgrade) := by
+  unfold usablePort at hp
+  unfold stsOnAck
+  simp only [htls]
+  cases h1 : capValGet v sPort with
+  | none => simp [h1] at hp
+  | some port =>
+    simp only [h1] at hp ⊢
+    cases h2 : atoi port with
+    | none => simp [h2] at hp
+    | some n =>
+      simp only [h2] at hp ⊢
+      by_cases hn : (n < 21 || n > 65535) = true
+      · simp [hn] at hp
+      · simp only [hn, Bool.false_eq_true, ↓reduceIte] at hp
+        injection hp with hp; subst hp
+        simp [hn]
+
 /-- Plaintext + usable port: upgrade, nothing further is written, and the next dial is TLS on that port. -/
 theorem upgrade_decision (cfg : Cfg) (sts : Sts) (v : CapVal) (p : Int)
     (htls : cfg.tlsActive = false) (hp : usablePort v = some p) :
     stsOnAck cfg sts v = ({ sts with upgradePort := p, beginUpgrade := true }, .upgrade) ∧
     ∀ cp ssl, planDial cp ssl (stsOnAck cfg sts v).1 = (p, true) := by
-  sorry
+  have hpos : p > 0 := by
+    unfold usablePort at hp
+    split at hp
+    · split at hp
+      · split at hp
+        · cases hp
+        · rename_i n _ hn
+          injection hp with hp; subst hp
+          simp at hn; omega
+      · cases hp
+    · cases hp
+  rw [stsOnAck_plain_some cfg sts v p htls hp]
+  refine ⟨rfl, ?_⟩
+  intro cp ssl
+  simp [planDial, Sts.enabled, hpos]
 
 theorem upgrade_silent (cfg : Cfg) (st : St) (e : Event) (a b c : Bytes) (v : CapVal) (p : Int)
     (hp : e.params = [a, b, c]) (hack : b = cACK) (hd : cfg.disableSTS = false) (htls : cfg.tlsActive = false)
     (hv : AMap.get? (capAck st.tmpCap st.enabledCap (splitOnByte SP c)) sSts = some v) (hport : usablePort v = some p) :
     (handleCAP cfg st e).2 = [Out.close] ∧ (handleCAP cfg st e).1.sts.upgradePort = p ∧
       (handleCAP cfg st e).1.sts.beginUpgrade = true := by
-  sorry
+  rw [handleCAP_ack3 cfg st e a b c hp hack]
+  unfold ackRes
+  simp only [hv, hd, Bool.false_eq_true, ↓reduceIte, stsOnAck_plain_some cfg st.sts v p htls hport]
+  exact ⟨trivial, trivial, trivial⟩
 
 /-- Plaintext without a usable port: abort, and the stored policy is untouched (not retained). -/
 theorem invalid_policy_not_retained (cfg : Cfg) (sts : Sts) (v : CapVal)
     (htls : cfg.tlsActive = false) (hp : usablePort v = none) :
     stsOnAck cfg sts v = (sts, .abort) := by
-  sorry
+  unfold usablePort at hp
+  unfold stsOnAck
+  simp only [htls]
+  cases h1 : capValGet v sPort with
+  | none => simp
+  | some port =>
+    simp only [h1] at hp ⊢
+    cases h2 : atoi port with
+    | none => simp
+    | some n =>
+      simp only [h2] at hp ⊢
+      by_cases hn : (n < 21 || n > 65535) = true
+      · simp [hn]
+      · simp [hn] at hp
 
 /-- On TLS the port key is ignored and a duration is required; without it: abort and the
     persistence policy is not recorded. -/
@@ -131,11 +379,15 @@ theorem tls_needs_duration (cfg : Cfg) (sts : Sts) (v : CapVal)
     (htls : cfg.tlsActive = true) (hd : capValGet v sDuration = none) :
     (stsOnAck cfg sts v).2 = .abort ∧ (stsOnAck cfg sts v).1.persistenceDuration = sts.persistenceDuration ∧
     (stsOnAck cfg sts v).1.upgradePort = sts.upgradePort := by
-  sorry
+  unfold stsOnAck
+  simp only [htls, hd]
+  cases capValGet v sPreload <;> simp
 
 theorem tls_ignores_port (cfg : Cfg) (sts : Sts) (v : CapVal) (htls : cfg.tlsActive = true) :
     (stsOnAck cfg sts v).1.upgradePort = sts.upgradePort ∧ (stsOnAck cfg sts v).2 ≠ .upgrade := by
-  sorry
+  unfold stsOnAck
+  simp only [htls]
+  cases capValGet v sPreload <;> cases capValGet v sDuration <;> simp
 
 /-- Once a policy is stored every later dial uses TLS on its port; only an EXPIRED policy with
     fallback allowed is ever dropped, and only by a failed dial. -/
@@ -144,15 +396,34 @@ theorem policy_sticks (cp : Int) (ssl : Bool) (s : Sts) (h : s.enabled = true) :
     (∀ disableFallback, (onDialFail disableFallback false s) = (s, .stsUpgradeFailed)) ∧
     (∀ expired, (onDialFail true expired s) = (s, .stsUpgradeFailed)) ∧
     (afterCleanEnd s).1.upgradePort = s.upgradePort := by
-  sorry
+  refine ⟨by simp [planDial, h], fun d => by simp [onDialFail, h], fun x => by simp [onDialFail, h], ?_⟩
+  unfold afterCleanEnd
+  split <;> rfl
+
+theorem ackRes_sts_disabled (cfg : Cfg) (st : St) (last : Bytes) (h : cfg.disableSTS = true) :
+    (ackRes cfg st last).1.sts = st.sts := by
+  rcases ackRes_cases cfg st last with ⟨s, hs, h1⟩ | ⟨v, _, h2, _, _⟩ | ⟨v, _, h2, _, _⟩
+  · rw [h1, ackTail_fst, hs h]
+  · rw [h] at h2; cases h2
+  · rw [h] at h2; cases h2
+
+theorem contains_possible_sts (cfg : Cfg) (h : cfg.disableSTS = true ∨ cfg.ssl = true) :
+    AMap.contains (possibleCaps cfg) sSts = AMap.contains cfg.supportedCaps sSts := by
+  rw [Bool.eq_iff_iff, possible_exact, contains_iff_mem_keys]
+  have h1 : sSts ∉ builtinCaps := by decide
+  have h2 : sSts ≠ sSasl := by decide
+  rcases h with h | h <;> simp [h1, h2, h]
 
 /-- With DisableSTS the policy is never acted on; with DisableSTS or configured SSL it is never requested. -/
 theorem sts_disabled (cfg : Cfg) (st : St) (e : Event) (h : cfg.disableSTS = true) :
     (handleCAP cfg st e).1.sts = st.sts ∧ AMap.contains (possibleCaps cfg) sSts = (AMap.contains cfg.supportedCaps sSts) := by
-  sorry
+  refine ⟨?_, contains_possible_sts cfg (Or.inl h)⟩
+  rw [handleCAP_eq]
+  cases hd : isDel e <;> cases hn : isNak e <;> cases hl : isLs e <;> cases ha : isAck e <;>
+    simp [ackRes_sts_disabled cfg st e.last h]
 
 theorem sts_not_requested_on_ssl (cfg : Cfg) (h : cfg.ssl = true) :
-    AMap.contains (possibleCaps cfg) sSts = AMap.contains cfg.supportedCaps sSts := by
-  sorry
+    AMap.contains (possibleCaps cfg) sSts = AMap.contains cfg.supportedCaps sSts :=
+  contains_possible_sts cfg (Or.inr h)
 
 end Girc.Proofs.ProtocolB
